@@ -1,4 +1,5 @@
 """C05 - extension additions across schema versions: dataflow facts in rw/uper.rs (DESIGN.md 5/C05)."""
+import re
 from .. import expr as X
 from .. import facts as F
 from .. import rules as R
@@ -372,11 +373,60 @@ def r5(ctx):
                 ctx.ok(rule, "%s_%s" % (side, k), {"skeleton": names})
 
 
+def r10(ctx):
+    rule = "C05.R10"
+    ctx.rule(rule, "an open type is skipped, never judged: in UperReader::with_buffer and read_whole_sub_slice (closures included) no error "
+                   "is built on a path that follows the successful return of the content closure - how much of the announced octets the "
+                   "content used is not a reason to fail, because a reader of an older version stops early inside an addition whose own "
+                   "type has grown and relies on the length to skip the rest")
+    P = ctx.program()
+    n = 0
+    for fn in ("with_buffer", "read_whole_sub_slice"):
+        roots = [b for b in P.lib_bodies("asn1rs") if "UperReader" in b.path and b.name == fn and b.def_kind == "AssocFn"]
+        if len(roots) != 1:
+            ctx.fail(rule, "anchor-lost:" + fn, "matched %d bodies" % len(roots))
+            continue
+        root = roots[0]
+        calls = []
+        for body in [root] + P.closures_of(root):
+            for cs in body.calls():
+                if cs.name in ("call_once", "call", "call_mut") and cs.fn and "closure@" not in (cs.fn.get("self_ty") or "") \
+                        and re.match(r"^[A-Z]\w{0,2}$", (cs.fn.get("self_ty") or "").lstrip("&").replace("mut ", "")):
+                    calls.append((body, cs))
+        if not calls:
+            # the content closure is handed on (with_buffer -> read_whole_sub_slice) or wrapped; nothing is called here
+            ctx.ok(rule, fn, {"function": root.path, "content_closure_calls": 0}, nontrivial=False)
+            continue
+        for body, cs in calls:
+            n += 1
+            after = body.reach_from(cs.target) if cs.target is not None else set()
+            bad = []
+            for bb in sorted(after):
+                for st in body.blocks[bb]["stmts"]:
+                    rv = st.get("rv") or {}
+                    if st["k"] == "assign" and rv.get("k") == "agg" and (rv.get("adt") or "").endswith(("err::ErrorKind", "err::Error")):
+                        bad.append(("ErrorKind::%s" % rv.get("variant"), span_loc(st["sp"])))
+                t = body.blocks[bb]["term"]
+                if t and t["k"] == "call":
+                    full = ((t["func"].get("fn") or {}).get("full") or "")
+                    if re.search(r"err::Error::\w+$", full) and not full.endswith("::from"):
+                        bad.append((full.split("::")[-1], span_loc(t["sp"])))
+            key = "%s#after-content" % (body.root or body.path).split("::")[-1] if body is not root else fn + "#after-content"
+            detail = {"function": body.path, "content_closure_called_at": cs.loc(), "errors_built_afterwards": bad[:4]}
+            if bad:
+                ctx.fail(rule, fn + "#after-content", "after the content of the open type was read successfully, %s is built at %s: the reader "
+                                                     "refuses an addition because of what its content left unread" % bad[0], bad[0][1], detail)
+            else:
+                ctx.ok(rule, fn + "#after-content", detail)
+    ctx.floor(rule, n, "C05.R10.calls")
+
+
 def run(ctx):
     r1_r2(ctx)
     r3(ctx)
     r4(ctx)
     r5(ctx)
     r8(ctx)
+    r10(ctx)
     from .c16 import r7 as choice_tag_from_root_alternatives
     choice_tag_from_root_alternatives(ctx, rule="C05.R7")
